@@ -10,7 +10,7 @@ CHECKS = {
 }
 
 SNAP_NOTE = "Trusted: reference models in engine/ref (exact integer arithmetic; router self-checked against brute-force sampling), Go toolchain. Bounds: lattice window/step/vertex count of each scope as listed in the evidence; inputs above the bounds are outside. Real code executed: snap.SnapPolygon / pointindex built from /repo's working tree."
-LAT = "bounded exhaustive input search (DFS over partial lattice polygons, validity pruning only) executing the real code on every complete input, judged by an exact reference model"
+LAT = "bounded exhaustive input search (DFS over partial lattice polygons, validity pruning only; plus exhaustively enumerated finite families of larger polygons: every edge-connected union of cells of 4x3 / 4x4 grids of rectangles with sub-pixel columns and rows x every start vertex, and parameterised families around ring splitting / hole matching) executing the real code on every complete input, judged by an exact reference model"
 CHECKS.update({
  "C01": ("snapmc", LAT + "; oracle: pairwise proper-crossing test of all returned boundary edges per tile matrix",
    "Every valid polygon of each lattice scope (all simple shells with every rotation, holes, multi-level grids) x id subsets x all four flag combinations is snapped by the real code and all returned edges are tested pairwise for proper crossings in exact arithmetic. Exhaustive within the scopes; crossings that need more vertices or a finer lattice than the scopes are covered only through pinned witnesses.", SNAP_NOTE, "3/C01"),
@@ -47,11 +47,11 @@ CHECKS.update({
    "Trusted: instrumenter rewrites (validated per run by the digest comparison), maps iterated inside third-party packages are not controlled.", "3/C07"),
 })
 CHECKS.update({
- "C10": ("pipemc", "stateless model checking of the real processing package (mechanically instrumented: every channel operation, go statement, WaitGroup operation and map iteration is a scheduling / choice point owned by a controlled scheduler) for every feature stream of a bounded alphabet x outcome table, against a sequential reference of what each target must receive",
-   "All streams up to length 3 (1 target), 2 (2-3 targets) over non-polygon / polygon / 1-2 part multipolygon with every kept/dropped/split outcome vector; per stream the default schedule and every schedule with <= 1 deviation (thorough: <= 2 preemptions) incl. all map-iteration orders of the target maps; received features compared exactly (identity, attributes, geometry, order) at hand-over and again at the target's final write.",
+ "C10": ("pipemc", "stateless model checking of the real processing package (mechanically instrumented: every channel operation, select, go statement, WaitGroup / Mutex / Once operation, sync/atomic operation and map iteration is a scheduling / choice point owned by a controlled scheduler) for every feature stream of a bounded alphabet x outcome table, against a sequential reference of what each target must receive",
+   "All streams up to length 3 (1 target), 2 (2-3 targets) over non-polygon / polygon / 1-2 part multipolygon with every kept/dropped/split outcome vector, plus all streams up to length 2 over every non-polygon geometry type (point, line, multi types, collections incl. one holding a polygon, nil, pointer); per stream the default schedule and every schedule with <= 1 deviation (thorough: <= 2 preemptions) incl. all map-iteration orders of the target maps; received features compared exactly (identity, attributes, geometry, order) at hand-over and again at the target's final write.",
    "Trusted: scheduler's channel/wait-group model (mismatch = harness error), instrumenter, fake source/targets; Polygon and 1-element MultiPolygon are identified.", "3/C10"),
  "C11": ("pipemc", "stateless model checking of the real (instrumented) processing package under a controlled scheduler: all schedules with state-hash pruning for the small configurations, iterative preemption / deviation bounding for the larger ones; plus a separate free-running -race pass of the same harness bodies against the un-instrumented package",
-   "Reader, snapper, router and N writer goroutines (N=1..5) with fake targets whose handling and final write are separately scheduled steps: no deadlock, no panic (send on closed, double close, negative wait group), no early return (every target finished its final write when ProcessFeatures returns; the caller's table switch is not observed), no leak, no drop/dup/reorder. One outcome per scenario expected and reported.",
+   "Reader, snapper, router and N writer goroutines (N=1..5) with fake targets whose handling and final write are separately scheduled steps: no deadlock, no livelock (a repeated state in which only goroutines polling an atomic can move), no panic (send on closed, double close, negative wait group), no early return (every target finished its final write when ProcessFeatures returns; the caller's table switch is not observed), no leak, no drop/dup/reorder. One outcome per scenario expected and reported.",
    "Trusted: scheduler model; memory-model effects only through the sampled free-running -race pass (1800 runs, GOMAXPROCS 1/2/16, streams up to 200), reported separately in the evidence.", "3/C11"),
 })
 CHECKS.update({
@@ -59,7 +59,7 @@ CHECKS.update({
    "Page sizes 1..3 (thorough 6) x counts 0..3p+1 x all content sequences over {small, extent-extending, empty} up to length 5 and all placements of <= 2 special features beyond x two schemas (geometry column in the middle, NULL patterns) x polygon/multipolygon/point: rows, order, attributes, geometry, spatial index entries, recorded extent, table definition and SRS.",
    "Trusted: the spatialite driver stub (plain SQLite + pure-Go ST_ functions) stands in for libspatialite; a log.Fatal inside texel is reported as a violation with the case that was running.", "3/C12"),
  "C13": ("gpkgmc", "exhaustive enumeration of a union of fully enumerated sub-lattices of invocations of the real texel binary (built from the working tree with the driver stub by overlay) on generated source GeoPackages; every produced file compared table by table, row by row with a reference computed by the library from the decoded source rows",
-   "Id lists (single, descending, three, duplicates) x keep x reverse x page sizes; all 8 flag combinations via command line and environment, with and without an outside-grid feature; 5 target path shapes x fresh/overwrite/pre-existing+overwrite; a family of 172 (thorough 516) sources (every sequence of <= 2 polygon kinds x multipolygon kinds, line/point tables); exact file set, rows, attributes, geometries, other tables copied, nothing of an old file survives.",
+   "Id lists (single, descending, three, duplicates) x keep x reverse x page sizes; all 8 flag combinations via command line and environment, with and without an outside-grid feature; 5 target path shapes x fresh/overwrite/pre-existing+overwrite; overwrite with every non-empty proper subset of the requested targets pre-existing x three id lists; a family of 172 (thorough 516) sources (every sequence of <= 2 polygon kinds x multipolygon kinds, line/point tables); exact file set, rows, attributes, geometries, other tables copied, nothing of an old file survives.",
    "Trusted: driver stub; reference uses snap.SnapPolygon of the same tree (C13 checks plumbing, not snapping).", "3/C13"),
 })
 CHECKS.update({
